@@ -302,7 +302,7 @@ class C02(Property):
     id = "C02"
     prop_modules = ["CobaVerif.Props.C02"]
     quick_n = 280
-    thorough_n = 6000
+    thorough_n = 5000
     search_n = 160
     case_timeout = 120
     workers = 8
@@ -311,7 +311,10 @@ class C02(Property):
             "SequentialCB), result file plain or .gz, complete log cut at every record boundary +-2 bytes plus PRNG-chosen offsets (thorough: "
             "every byte offset of small logs; 7% of the cases hold one record of 65 KB-1.5 MB cut at offsets spread over it, around 4 KiB/64 KiB "
             "multiples from its start and end and just before its newline), resumed under a PRNG-chosen configuration (processes 1-3, maxchunksperchild, maxtasksperchunk, "
-            "chunked environments), 25% of the cases interrupted and resumed a second time; non-trivial = some cut strictly inside the log restores "
+            "all/some/no environments chunk()ed in both declaration orders), result-file names of several shapes (containing '.gz' without ending in it, "
+            "sub-directories, spaces, non-ASCII); 30% of the un-chunked cases cut a SPARSE log instead (version + experiment line + a PRNG-chosen subset of "
+            "the records, optionally shuffled: what a killed multi-process run leaves); 30% of the cases interrupt a successful resumption again, 1-3 times, "
+            "on the same path in the same process; non-trivial = some cut strictly inside the log restores "
             "at least one record and leaves at least one task to run; distinct by canonical JSON of the case")
     trusted_base = [
         "file-system append semantics: a killed run leaves a byte prefix of what it would have written (the cut files are produced by truncating a complete log)",
@@ -320,6 +323,7 @@ class C02(Property):
         "re-running the same experiment produces the same record text for the same task (deterministic components: C01/C03); a raising task writes no record",
         "TransactionResult is a function of the records per id (`bodies`); Table/Result construction itself is C07/C17",
         "the n_learners/n_environments mismatch test of run() is not modelled (the re-run uses the same experiment)",
+        "sparse logs: with every task its own chunk and enough processes a killed run can leave the records of ANY subset of the tasks in ANY order after the two preamble lines (used only when no environment is chunk()ed); the theorems cover every ValidLog",
     ]
     assumptions = ["the experiment lists every triple once and is re-run unchanged", "evaluator objects are truthy",
                    "record order of a multi-process run is arbitrary: appended records are compared as multisets"]
